@@ -4,8 +4,8 @@
 #include "props/reg_glue.hpp"
 using namespace rg;
 
-enum Kind { SET, BITSET, BITCLR, BWRITE, SANITISE, CORRUPT, NKINDS };
-static const char *kname[] = {"set", "bitset", "bitclr", "bwrite", "sanitise", "corrupt"};
+enum Kind { SET, BITSET, BITCLR, BWRITE, SANITISE, CORRUPT, BWCUR, NKINDS };   // BWCUR: block write of raw words = current content of [addr, addr+raw) with `words` patched in at offset h
+static const char *kname[] = {"set", "bitset", "bitclr", "bwrite", "sanitise", "corrupt", "bwcur"};
 struct Op { int kind; uint32_t h; int vtype; uint64_t raw; uint32_t addr; std::vector<uint16_t> words; };
 struct Case { uint64_t tseed; bool with_fail; TableD t; std::vector<Op> ops; };
 
@@ -69,7 +69,15 @@ static std::string run_case(const Case &c, std::string &msg, bool classify) {
             if (refused_expected) { if (a.code == REG_ACCESS_SUCCESS) { msg = vp::fmt("%s result %llx violates the constraint but was accepted", nm.c_str(), (unsigned long long)nv); return nm + ":accepted-although-must-refuse"; } }
             else { if (a.code != REG_ACCESS_SUCCESS) { msg = vp::fmt("%s refused: %s", nm.c_str(), code_name(a.code)); return nm + ":refused-although-acceptable"; } m.store(r, nv); }
             break; }
-        case BWRITE: {
+        case BWRITE: case BWCUR: {
+            Op full;
+            if (o.kind == BWCUR) {
+                full = o; full.kind = BWRITE; full.words.assign((size_t)o.raw, 0);
+                for (uint32_t k = 0; k < (uint32_t)o.raw; k++) if (m.mapped(o.addr + k)) full.words[k] = m.word(o.addr + k);
+                for (size_t k = 0; k < o.words.size(); k++) if (o.h + k < full.words.size()) full.words[o.h + k] = o.words[k];
+                nm = "bwrite";
+            }
+            const Op &o = (c.ops[i].kind == BWCUR) ? full : c.ops[i];
             uint32_t n = (uint32_t)o.words.size();
             vp::Block buf((size_t)n * 2); if (n) memcpy(buf.p, o.words.data(), (size_t)n * 2);
             // prediction (same rules as C02)
@@ -138,16 +146,19 @@ static rc::Gen<Case> genCase() {
         vp::Rng trng(c.tseed);
         FamilyOpts fo; fo.allow_fail = c.with_fail; fo.allow_nowrite = false; fo.max_size = 8; fo.max_regs = 5;
         if (c.tseed % 8 == 7) { fo.max_areas = 6; fo.max_size = 16; fo.max_regs = 12; }   // some larger tables
+        if (c.tseed % 32 == 5) fo.huge = 1;                                              // an area beyond 2^16 words with registers behind offset 0x10000
+        if (c.tseed % 32 == 6) fo.many = 1;                                              // 32..70 registers
         c.t = gen_table(trng, fo);
         for (auto &a : c.t.areas) a.skip_defaults = false;
         auto tp = std::make_shared<const TableD>(c.t);   // shared: rapidcheck re-evaluates the element generators lazily while shrinking
         const TableD &t = *tp;
         uint32_t lo = t.areas.front().base >= 1 ? t.areas.front().base - 1 : 0, hi = t.areas.back().end() + 1;
-        size_t nops = *rc::gen::inRange<size_t>(0, 401);
+        bool huge = false; for (auto &a : t.areas) if (a.size > 0x10000u) huge = true;
+        size_t nops = *rc::gen::inRange<size_t>(0, huge ? 25 : 401);
         bool wf = c.with_fail;
-        c.ops = *rc::gen::container<std::vector<Op>>(nops, rc::gen::exec([tp, lo, hi, wf]() {
+        c.ops = *rc::gen::container<std::vector<Op>>(nops, rc::gen::exec([tp, lo, hi, wf, huge]() {
             const TableD &t = *tp;
-            Op o; o.kind = *rc::gen::weightedElement<int>({{6, SET}, {2, BITSET}, {2, BITCLR}, {5, BWRITE}, {wf ? 0 : 2, SANITISE}, {wf ? 0 : 2, CORRUPT}});
+            Op o; o.kind = *rc::gen::weightedElement<int>({{6, SET}, {2, BITSET}, {2, BITCLR}, {5, BWRITE}, {wf ? 0 : 2, SANITISE}, {wf ? 0 : 2, CORRUPT}, {huge ? 6 : 1, BWCUR}});
             o.h = 0; o.vtype = 0; o.raw = 0; o.addr = 0;
             uint64_t sub = *rc::gen::arbitrary<uint64_t>();
             vp::Rng r(sub);   // derived deterministically from a rapidcheck-generated value (keeps the case a pure function of the generated data)
@@ -168,6 +179,18 @@ static rc::Gen<Case> genCase() {
                     uint16_t img[4]; rm::serialise(reg.type, gen_for(r, reg), t.big, img);
                     if (r.chance(1, 2)) { o.addr = reg.addr; o.words.assign(img, img + rm::words(reg.type)); }
                     else { uint32_t k = (uint32_t)r.below(rm::words(reg.type)); o.addr = reg.addr + k; o.words.assign(img + k, img + k + 1 + r.below(rm::words(reg.type) - k)); }
+                }
+                break; }
+            case BWCUR: {
+                // a long block made of the current content with one register (or a few words) replaced
+                const AreaD &ar = t.areas[r.below(t.areas.size())];
+                o.addr = ar.base + (uint32_t)r.below(std::min<uint32_t>(ar.size, 4));
+                uint32_t maxn = ar.end() - o.addr + (r.chance(1, 4) ? 2u : 0u);
+                o.raw = ar.size > 0x10000u ? (r.chance(1, 2) ? maxn : 0x10000u + r.below(maxn > 0x10000u ? maxn - 0x10000u + 1 : 1)) : (maxn ? 1 + r.below(maxn) : 0);
+                if (nr) {
+                    const RegD &reg = t.regs[r.below(nr)];
+                    uint16_t img[4]; rm::serialise(reg.type, gen_for(r, reg), t.big, img);
+                    if (reg.addr >= o.addr) { o.h = reg.addr - o.addr; o.words.assign(img, img + rm::words(reg.type)); }
                 }
                 break; }
             default: break;
